@@ -1,8 +1,11 @@
 #!/bin/bash
 # Runs every kept seeded change against the quick check of its property -- or of the properties named in
 # its meta.json "caught_by" -- (scratch worktree, evidence untouched) and prints CAUGHT/MISSED per change.
+# SHARD=i/N runs every N-th change starting with the i-th (one scratch worktree $MUTW per shard).
 cd /verif
+k=0; si=${SHARD%%/*}; sn=${SHARD##*/}
 for d in seeded/*/; do
+  k=$((k+1)); if [ -n "${SHARD:-}" ] && [ $(( (k-1) % sn )) -ne $(( si % sn )) ]; then continue; fi
   n=$(basename $d); id=${n%%-*}
   if grep -q '"neutralised_by"' /verif/$d/meta.json; then echo "RETIRED $n (neutralised by a later fix)"; continue; fi
   if grep -q '"uncaught"' /verif/$d/meta.json; then echo "UNCAUGHT-KNOWN $n (documented in DESIGN.md section 12)"; continue; fi
